@@ -8,6 +8,11 @@ for s in $seeds; do
   for i in $(seq -w 1 20); do
     out=$(VERIF_SEED=$s VERIF_ROOT=/verif ./target/release/c$i --tier quick 2>/dev/null); rc=$?
     if [ $rc -ne 0 ] || echo "$out" | grep -qE 'VIOLATION|KNOWN-FINDING|INCONCLUSIVE'; then bad=1; echo "NOT SILENT: C$i seed=$s rc=$rc"; echo "$out" | grep -E 'VIOLATION|KNOWN|INCONCL|failure' | head -5; fi
+    # the uninstrumented repeat of the six hooked properties (built by ./check --setup)
+    case $i in 03|10|11|12|13|14)
+      out=$(VERIF_SEED=$s VERIF_ROOT=/verif VERIF_EVIDENCE_SUBDIR=evidence_plain ./target/plain/fast/c$i --tier quick 2>/dev/null); rc=$?
+      if [ $rc -ne 0 ] || echo "$out" | grep -qE 'VIOLATION|KNOWN-FINDING|INCONCLUSIVE'; then bad=1; echo "NOT SILENT (plain): C$i seed=$s rc=$rc"; echo "$out" | grep -E 'VIOLATION|KNOWN|INCONCL|failure' | head -5; fi;;
+    esac
   done
   echo "seed $s done"
 done
